@@ -260,13 +260,14 @@ fn deps_mode(raw: &[Value], scratch: &Path) -> Summary {
         fs::create_dir_all(&dest).unwrap();
         let bp_toml = format!("{}# trailing comment that a re-serialisation would lose\n", composite_toml("verif/meta"));
         fs::write(bpdir.join("buildpack.toml"), &bp_toml).unwrap();
-        let known_path = base.join("packaged/x86_64/verif_known");
+        let known_path = base.join("packaged/x86_64/verif_known%41");
         let uris: Vec<String> = kinds.iter().enumerate().map(|(k, kind)| match kind.as_str() {
             "libcnb-known" => "libcnb:verif/known".to_string(),
             "libcnb-unknown" => "libcnb:verif/unknown".to_string(),
             "libcnb-invalid" => ["libcnb:app", "libcnb:verif/two_java!", "libcnb:config", "libcnb:sbom", "libcnb:verif known"][(i + k) % 5].to_string(),
-            "relative" => format!("../rel{k}/bp"),
-            "absolute" => format!("/abs/./path{k}/../kept-verbatim"),
+            // (a percent sign in a path is a character of the directory name: nothing encodes or decodes it)
+            "relative" => format!("../rel{k}/bp%20x"),
+            "absolute" => format!("/abs/./path{k}/../100%25-kept-verbatim"),
             // (deliberately not in RFC 3986 normal form: "copied verbatim" means exactly that)
             "docker" => "docker://Docker.IO/heroku/procfile-cnb:2.0.0".to_string(),
             "https" => "https://Example.com/a/../some/bp%7e.cnb?x=1#frag".to_string(),
@@ -308,7 +309,7 @@ fn deps_mode(raw: &[Value], scratch: &Path) -> Summary {
                         let got: Vec<String> = t.get("dependencies").and_then(|d| d.as_array()).map(|a| a.iter().map(|d| d.get("uri").and_then(|u| u.as_str()).unwrap_or("<no uri>").to_string()).collect()).unwrap_or_default();
                         let want: Vec<String> = expect_out.iter().enumerate().map(|(k, e)| match e.as_str() {
                             "packaged-path" => known_path.to_string_lossy().to_string(),
-                            "absolutised" => base.join(format!("rel{k}/bp")).to_string_lossy().to_string(),
+                            "absolutised" => base.join(format!("rel{k}/bp%20x")).to_string_lossy().to_string(),
                             _ => uris[k].clone(),
                         }).collect();
                         if got != want { problems.push(format!("dependencies written {got:?}, expected {want:?}")); }
